@@ -26,6 +26,7 @@ fn dispatch(req: &Value) -> Value {
         "coercion_detect" => ops_case::coercion_detect(req),
         "constraints" => ops_case::constraints(req),
         "identifiers" => ops_case::identifiers(req),
+        "resolve" => ops_case::resolve(req),
         // plan / splice / serde
         "splice" => ops_plan::splice(req),
         "patch_headers" => ops_plan::patch_headers(req),
